@@ -70,6 +70,9 @@ type Node struct {
 	// temporal and decimal scalars, exactly as printed.
 	Raw    string `json:",omitempty"`
 	HasRaw bool   `json:",omitempty"`
+	// Set by ParseLibText only: the printed token of an integer-form number
+	// (a double may be printed without fraction and exponent: 3, -0).
+	NumText string `json:",omitempty"`
 }
 
 // binary JSON type bytes (json_binary.cc JSONB_TYPE_*)
